@@ -1,4 +1,5 @@
 """C15 - rejected input fails cleanly and leaves no process-wide residue."""
+import signal
 import hashlib
 
 from simkit.engine import Prop
@@ -48,22 +49,38 @@ def _(w, e):
     w.fs.plans[norm(e["path"])] = dict(e["plan"])
 
 
+CPU_BUDGET_S = 20.0
+
+
+def _cpu_budget(signum, frame):
+    raise steps.StepBudgetExceeded("more than %s s of CPU time inside one call of the reader" % CPU_BUDGET_S)
+
+
 @oplang.op("parse_steps")
 def _(w, e):
     """sdn.parse under the virtual step counter; with 'budget' the reader is interrupted when it exceeds it."""
     steps.start(e.get("budget"))
     w.last_parse = "running"
+    w.last_hang = ""
+    # the step counter sees executed lines of the reader modules; a loop inside one call (a regular expression that
+    # backtracks without end) executes no line: the parse also runs under a budget of process CPU time (virtual timer:
+    # it does not run while the process waits, so machine load does not matter), generous by a factor of > 100
+    old = signal.signal(signal.SIGVTALRM, _cpu_budget)
+    signal.setitimer(signal.ITIMER_VIRTUAL, CPU_BUDGET_S)
     try:
         n = sdn.parse(e["path"])
         w.last_parse = "returned"
         return [n]
-    except steps.StepBudgetExceeded:
+    except steps.StepBudgetExceeded as x:
         w.last_parse = "hang"
+        w.last_hang = str(x.args[0]) if x.args and "CPU" in str(x.args[0]) else ""
         return None
     except BaseException:
         w.last_parse = "raised"
         raise
     finally:
+        signal.setitimer(signal.ITIMER_VIRTUAL, 0)
+        signal.signal(signal.SIGVTALRM, old)
         w.last_steps = steps.stop()
         w.count("sim.reader_steps", w.last_steps)
 
@@ -269,6 +286,7 @@ class C15(Prop):
                 w.count("probe.baseline_rejected")
         if w.last_parse == "hang":
             raise Violation("C15.hang", "%s/%s" % (fmt, what),
+                            getattr(w, "last_hang", "") or
                             "the reader executed more than %s lines without ending (fault-free: %s)" % (
                                 ev.get("budget"), self.base_steps))
         if ev.get("changed"):
